@@ -50,13 +50,13 @@ CLAIMS = {
         ref='DESIGN.md §5 C09'),
     'C14': dict(
         text='Lean 4 theorems about dtml-try / dtml-raise / dtml-return of the interpreter model, for ALL programs, class tables, '
-             'namespaces, fault plans and fuel: gen_find_handler_is_model / gen_match_base_is_model (Try.find_handler / match_base TRANSLATED from /repo on every run equal findHandler / matchBase), gen_try_except_is_model / gen_try_finally_is_model / gen_return_is_model (Try.render_try_except, render_try_finally and ReturnTag.render TRANSLATED likewise equal the interpreter\'s try_ / tryFin / ret cases), handler_selected (findHandler = FIRST handler naming the class, a base, or bare: '
+             'namespaces, fault plans and fuel: gen_find_handler_is_model / gen_match_base_is_model (Try.find_handler / match_base TRANSLATED from /repo on every run equal findHandler / matchBase), gen_try_except_is_model / gen_try_finally_is_model / gen_return_is_model (Try.render_try_except, render_try_finally and ReturnTag.render TRANSLATED likewise equal the interpreter\'s try_ / tryFin / ret cases), gen_raise_is_model (Raise.render TRANSLATED statement by statement - harness/trans_raise.py -> GenRaise.lean - equals the interpreter\'s raise_ case: the choice of the class with its defaults, the two try blocks in their order, \'Invalid Error Value\', DTReturn passing through), handler_selected (findHandler = FIRST handler naming the class, a base, or bare: '
              'iff-characterisation over the handler list), no_handler_iff, matchBase_sound / matchBase_complete (transitive '
              'base relation), try_no_exception, else_exception_propagates, unmatched_propagates, handler_rendered, '
              'else_only_without_exception, handler_exception_propagates, handler_bindings (+ _scoped, from C08), return_not_caught, '
              'return_stops_blocks, return_through_join/frame/raise, return_ends_call, return_ends_subtemplate, '
              'finally_exactly_once (state after = body then finally once, on every path), finally_then_exception, '
-             'finally_then_return, finally_appended, finally_own_exception, raise_raises, raise_class_by_name/expr. '
+             'finally_then_return, finally_appended, finally_own_exception, raise_raises, raise_class_by_name/expr, raise_class_expr_raises. '
              'Correspondence: results and call traces of generated programs (handler lists over a class hierarchy with multiple '
              'inheritance, nesting <= 3, return/raise in every block kind, sub-templates) with and without injected faults; '
              'oracle: a reference evaluator written with plain Python try statements',
